@@ -99,7 +99,7 @@ func genC13(x *Ctx) *c13Scen {
 		maxPayload = 70000
 	}
 	id := 0
-	kinds := []string{"get", "get", "post-gzip", "early-close", "post-trunc", "notfound", "panic", "post-deflate", "client-gone", "plain", "hijack", "manual", "no-content", "post-panic", "post-badzlib"}
+	kinds := []string{"get", "get", "post-gzip", "early-close", "post-trunc", "notfound", "panic", "post-deflate", "client-gone", "plain", "hijack", "manual", "no-content", "post-panic", "post-badzlib", "hijack-refused"}
 	aes := []string{"gzip", "deflate", "gzip", "deflate, gzip", ""}
 	tp.Repeat(2, nClients, 600, func(int) {
 		var reqs []*c13Req
@@ -224,6 +224,11 @@ func runC13(x *Ctx) {
 		conn, _, err := resp.Hijack()
 		if err != nil {
 			r.hijackE = err.Error()
+			if r.Kind == "hijack-refused" {
+				// the take-over was refused: an ordinary response instead
+				t.Count("fault-hijack-refused")
+				writeChunks(t, resp, r, len(r.payload))
+			}
 			return
 		}
 		r.hijackOK = true
@@ -339,7 +344,7 @@ func runC13(x *Ctx) {
 					hr = NewReq("GET", "/p/panic", hdr, nil, 0, r.ID)
 				case "early-close":
 					hr = NewReq("GET", "/p/early", hdr, nil, 0, r.ID)
-				case "hijack":
+				case "hijack", "hijack-refused":
 					hr = NewReq("GET", "/p/hijack", hdr, nil, 0, r.ID)
 				case "manual":
 					hr = NewReq("GET", "/m/data", hdr, nil, 0, r.ID)
@@ -385,7 +390,8 @@ func runC13(x *Ctx) {
 					r.w.FaultMode, r.w.FailAt = sim.WFaultFail, r.WFailAt
 				}
 				var rw http.ResponseWriter = r.w
-				if r.Kind == "hijack" {
+				if r.Kind == "hijack" || r.Kind == "hijack-refused" {
+					r.w.RefuseHijack = r.Kind == "hijack-refused"
 					r.hw = sim.SimHijackWriter{SimWriter: r.w}
 					rw = r.hw
 				}
@@ -484,7 +490,7 @@ func runC13(x *Ctx) {
 				if st := r.w.Status(); st != []int{204, 304}[r.ID%2] || len(got) != 0 {
 					x.Violate("status", "request %d (no-content): status %d with %d decoded body bytes", r.ID, st, len(got))
 				}
-			case "get", "early-close":
+			case "get", "early-close", "hijack-refused":
 				if !bytes.Equal(got, r.payload) {
 					x.Violate("foreign-payload", "request %d (%s): decoded body (%d bytes, %q) is not its own payload (%d bytes)", r.ID, r.Kind, len(got), clip(string(got), 40), len(r.payload))
 				}
